@@ -11,6 +11,7 @@ import (
 	"errors"
 	"fmt"
 	"io"
+	"io/ioutil"
 	"mime"
 	"net/textproto"
 	"strconv"
@@ -364,21 +365,16 @@ func (m *Message) ReadFrom(r io.Reader) error {
 }
 
 func readSection(reader *bufio.Reader, readN int) ([]byte, error) {
-	buf := make([]byte, readN)
-
-	var err error
-	n := 0
-	for n < readN {
-		m, err := reader.Read(buf[n:])
-		if err != nil {
-			break
-		}
-		n += m
+	if readN < 0 {
+		return nil, errors.New("Negative section size")
 	}
 
+	// The size is declared by the remote: grow the buffer as data arrives instead of allocating it up front.
+	buf, err := ioutil.ReadAll(io.LimitReader(reader, int64(readN)))
 	if err != nil {
 		return buf, err
 	}
+	n := len(buf)
 
 	end, err := reader.ReadString('\n')
 	switch {
